@@ -326,6 +326,9 @@ class Planner(object):
         for _ in range(rng.choice([1, 1, 2, 3])):
             pairs = []
             keys = rng.sample(["type", "sender", "interface", "member", "path", "arg0"], rng.choice([1, 1, 2, 2, 3]))
+            if rng.random() < 0.4:
+                # alone, or combined with some of the other keys
+                keys = ["destination"] + keys[:rng.choice([0, 0, 1, 2])]
             for k in keys:
                 if k == "type":
                     pairs.append((b"type", rng.choice([b"signal", b"signal", b"method_call", b"method_return", b"error"])))
@@ -337,6 +340,10 @@ class Planner(object):
                     pairs.append((b"member", rng.choice(MEMBERS + [b"NameOwnerChanged", b"GetId", b"RequestName"])))
                 elif k == "path":
                     pairs.append((b"path", rng.choice(PATHS + [BUS_PATH])))
+                elif k == "destination":
+                    # live unique names, well-known names with and without an owner (all are targets of traffic), the bus
+                    pairs.append((b"destination", rng.choice([tok(j) for j in self.ords()] + NAMES + NAMES
+                                                             + [b"com.example.Nobody", b"com.example.Nobody", BUS])))
                 else:
                     pairs.append((b"arg0", rng.choice(ARG0 + NAMES[1:2])))
             rules.append(b",".join(k + b"='" + v + b"'" for k, v in pairs))
@@ -486,6 +493,7 @@ class Exec(object):
         self.violations = []
         self.steps_done = 0
         self.eof_ok = {}
+        self.gone_t = {}          # idx -> clock value from which the connection no longer is an ordinary one
 
     # -- plumbing
     def sub(self, v):
@@ -603,6 +611,7 @@ class Exec(object):
         c = self.cl[i]
         c.barrier()
         self.state[i] = "gone"
+        self.gone_t[i] = self.clock.t
         c.close()
         self.wait_gone(self.uniq[i])
         self.wait_noreply(op)
@@ -756,6 +765,7 @@ class Exec(object):
         c = self.cl[i]
         pre = self.cut("pre:%d" % op["i"])
         u = self.uniq[i]
+        self.gone_t[i] = self.clock.t
         if self.mode == "A":
             rules = self.sub(op["rules"])
             s = self.send(op, c, 1, path=BUS_PATH, iface=MON_IFACE, member=b"BecomeMonitor", dest=BUS, sig=b"asu", body=[rules, 0])
@@ -925,6 +935,12 @@ def judge_monitors(ex, part):
             t_of[(i, serial)] = t
     op_of = {v: plan.ops[k] for k, v in ex.callinfo.items()}
     u0 = ex.uniq[0]
+    # names a connection owned at any time: a bus-generated message (always addressed by unique name) is not judged
+    # against destination='<well-known name>' when its addressee may have owned that name (its exact time is unknown)
+    ever = {}
+    for _, owners in ex.snaps:
+        for n, u in owners.items():
+            ever.setdefault(u, {})[n] = u
     for M, m in ex.mons.items():
         if m.get("end") is None:
             part.count("monitor-stream-unbounded")
@@ -940,8 +956,33 @@ def judge_monitors(ex, part):
             if key in tail:
                 required, optional = 0, 1
             # what is merely tolerated (transition of this very connection) may also have come through its old rules
-            hit = True if required == 0 else filt.matches(view, owners)
+            hit = True if required == 0 else filt.verdict(view, owners)
+            if hit is None:
+                # destination= against a message delivered under another name of the same connection: not judged
+                required, optional, hit = 0, max(optional, required), True
+                part.count("destination-unjudged")
+            elif required and has_dest and view["destination"] is not None:
+                part.count("destination-filter-judged")
+                if hit and refused == "no-owner":
+                    part.count("destination-no-owner-shown")
+                if hit and view["destination"] == BUS:
+                    part.count("destination-bus-shown")
             E.add(key, hit, cat, content, optional=optional, refused=refused, required=required)
+
+        has_dest = filt.has_destination()
+        by_unique = {u: i for i, u in ex.uniq.items()}
+
+        def recipient(i, t, msg):
+            """unique name of the connection the bus is about to deliver a client's message to, if any"""
+            d = msg.known().get(6)
+            if d is None or d == BUS or not t > ex.active_t.get(i, float("inf")):
+                return None
+            if d[:1] != b":":
+                d = ex.owners_at(t).get(d)
+            j = by_unique.get(d)
+            if j is None or not (ex.active_t.get(j, float("inf")) < t < ex.gone_t.get(j, float("inf"))):
+                return None
+            return d
 
         # 1. everything any connection sent
         for i, lst in sent.items():
@@ -956,7 +997,9 @@ def judge_monitors(ex, part):
                     req, opt = 0, 1                       # another monitor's forbidden message: the bus closes it unprocessed
                 op = op_of.get((i, serial))
                 refused = op.get("refused") if op else None
-                add(("c", true, serial), mon.view_of(msg, true), ex.owners_at(t), mon.category(msg, true), mon.content_of(msg),
+                view = mon.view_of(msg, true)
+                view["recipient"] = recipient(i, t, msg)
+                add(("c", true, serial), view, ex.owners_at(t), mon.category(msg, true), mon.content_of(msg),
                     required=req, optional=opt, refused=refused)
         # 2. bus-generated unicast messages, as received by their addressees
         for i, c in ex.cl.items():
@@ -977,7 +1020,9 @@ def judge_monitors(ex, part):
                 in_window = win is not None and j < win
                 namesig = msg.type == 4 and k.get(3) in (b"NameLost", b"NameAcquired")
                 req, opt = (0, 2) if (in_window and namesig) else (1, 0)
-                add(mon.stream_key(msg), mon.view_of(msg, BUS), {}, mon.category(msg), mon.content_of(msg), required=req, optional=opt)
+                view = mon.view_of(msg, BUS)
+                view["recipient"] = ex.uniq[i]
+                add(mon.stream_key(msg), view, ever.get(ex.uniq[i], {}), mon.category(msg), mon.content_of(msg), required=req, optional=opt)
         # 3. NameOwnerChanged broadcasts, as received by the observer (which holds a rule for them throughout)
         obs = ex.cl[0]
         for j in range(pre[0], min(len(obs.log), endcut[0])):
@@ -1006,8 +1051,8 @@ def judge_monitors(ex, part):
                 t = t_of.get((i, serial), 0)
                 if t_act < t <= t_end:
                     view = {"type": 3, "sender": BUS, "path": None, "interface": None, "member": None,
-                            "destination": ex.uniq[i], "args": [("s", b"")]}
-                    add(("r", 3, ex.uniq[i], serial, ACCESS_DENIED), view, {}, "bus-error:AccessDenied-for-denied-broadcast", None,
+                            "destination": ex.uniq[i], "args": [("s", b"")], "recipient": ex.uniq[i]}
+                    add(("r", 3, ex.uniq[i], serial, ACCESS_DENIED), view, ever.get(ex.uniq[i], {}), "bus-error:AccessDenied-for-denied-broadcast", None,
                         required=op["denied_n"])
         # the stream
         stream = [r.msg for r in ex.cl[M].log[m["start"]:]]
@@ -1050,6 +1095,8 @@ def judge_monitors(ex, part):
                     part.count("transition-double-copies")
         part.count("monitor-streams-judged")
         part.count("monitor-filter:" + ("empty" if filt.empty() else "selective"))
+        if has_dest:
+            part.count("monitor-filter:destination")
         desc = {"monitor": "connection %d" % M, "filter": [t.decode("latin1") for t in filt.texts]}
         for key, n in missing:
             info = E.info[key]
